@@ -195,7 +195,11 @@ func c01Judge(r *sumRun, sc *c01Scenario, res *core.Result, prop string) {
 				continue // soundness was checked online; failure is allowed
 			}
 			if !exists {
-				if o.Err == nil {
+				if o.Err == nil && len(o.Lines) == 0 && substituted(res) {
+					// an authentic record of another module, cached under this name by a client that was
+					// answered dishonestly (see substitutionKinds): zero lines, nothing unauthenticated
+					res.Probes["unknown-module-answered-with-zero-lines-after-substitution"]++
+				} else if o.Err == nil {
 					res.Fail(prop, "unknown-module-fails", "lookup of a module not in the log succeeded", "client %d Lookup(%s) = %q", c.ID, o.Req, o.Lines)
 				} else if strings.Contains(o.Err.Error(), sumdb.ErrSecurity.Error()) {
 					res.Fail(prop, "honest-no-security-error", "security error without any dishonest response", "client %d Lookup(%s): %s", c.ID, o.Req, firstLine(o.Err.Error()))
@@ -354,6 +358,11 @@ func c01Explore(src *choice.Src) *core.Result {
 				var m sw.ModVer
 				if src.Bool(1, 12) {
 					m = sw.ModVer{Path: "example.com/ghost", Vers: "v9.9.9"}
+					if src.Bool(1, 3) {
+						// a module the log does not have whose "path version" happens to be the first words of
+						// every signed tree head ("go.sum database tree")
+						m = sw.ModVer{Path: "go.sum", Vers: "database"}
+					}
 				} else {
 					// bias to the newest and oldest records
 					var id int64
@@ -503,7 +512,7 @@ func init() {
 		},
 		Explore: []string{"explore"},
 		Sweeps: []core.Sweep{{Name: "single-network-fault-placement", Entry: "sweep", Enumerate: c01Enumerate,
-			Space: "tile heights 1..4 (quick 1..2) x log sizes 1..20 (quick 1..10) x looked-up record (quick: first/last) x {cold cache, cache warmed by another record (thorough only), cache warmed by the same record} x {honest, each of the first 8 (quick 5) network responses x each of 22 network fault kinds (18 hostile, 3 benign, 1 assisted by the disk)}"}},
+			Space: "tile heights 1..4 (quick 1..2) x log sizes 1..20 (quick 1..10) x looked-up record (quick: first/last) x {cold cache, cache warmed by another record (thorough only), cache warmed by the same record} x {honest, each of the first 8 (quick 5) network responses x each of 23 network fault kinds (19 hostile, 3 benign, 1 assisted by the disk)}"}},
 		Rule: "explore: seeded (tile height 1-8, log 1-70 records (thorough up to 1100), log growing during the run, 1-3 clients sharing one machine's cache and config with 1-3 goroutines each, 0-3 faults over network/cache/config classes, 0-2 crash-restarts at arbitrary scheduler steps) followed by a heal phase; sweep: one placed network fault. " +
 			"Distinct = digest of the complete seam event log and schedule; non-trivial = at least one lookup completed.",
 		Real:        []string{"sumdb.Client incl. parCache and tileReader", "tlog (tiles, hashes, records, tree heads)", "note.Open/NewVerifier", "module.Escape*", "sumdb.Server.ServeHTTP over harness ServerOps"},
